@@ -270,6 +270,12 @@ def oracle(case, io):
                     return f"blank sentinel at row {i}, column {j} was not turned into NaN"
             elif got is None or got != v:
                 return f"value at row {i}, column {j} is {got} but the file has {t} there (row by row, in file order)"
+    # ... and its data range must agree with the header (otherwise the file must be refused)
+    good = [v for row in values for v in row if v is not None]
+    if good and len(range_toks) == 2 and num(range_toks[0]) is not None and num(range_toks[1]) is not None:
+        if not np.allclose([min(good), max(good)], [num(range_toks[0]), num(range_toks[1])]):
+            return (f"a grid was returned although its data range [{min(good)}, {max(good)}] disagrees with the header's "
+                    f"{range_toks} (must raise instead)")
     s, n, w, e = num(ns_toks[0]), num(ns_toks[1]), num(we_toks[0]), num(we_toks[1])
     if not (np.allclose(north, np.linspace(s, n, shape[0]), rtol=1e-12, atol=1e-12) and np.allclose(east, np.linspace(w, e, shape[1]), rtol=1e-12, atol=1e-12)):
         return "coordinates are not evenly spaced over the header ranges"
